@@ -57,34 +57,8 @@ def fmtcmd_stage(ck):
 
 def apalache_fmtcmd(ck):
     """Unbounded argument: IndInv is an inductive invariant of FmtCmd (any number of runs) and implies the checked invariants."""
-    import shutil, subprocess
-    wd = os.path.join(vlib.scratch(), "apalache-fmtcmd")
-    os.makedirs(wd, exist_ok=True)
-    for f in ("FmtCmd.tla", "FmtCmd_apalache.cfg"):
-        shutil.copy(os.path.join(vlib.SPEC, f), wd)
-    neg = open(os.path.join(wd, "FmtCmd_apalache.cfg")).read().replace("RunRewrites = TRUE", "RunRewrites = FALSE")
-    open(os.path.join(wd, "neg.cfg"), "w").write(neg)
-    obligations = [("initial states satisfy IndInv", "FmtCmd_apalache.cfg", "Init", "IndInv", 0, True),
-                   ("IndInv is inductive", "FmtCmd_apalache.cfg", "IndInit", "IndInv", 1, True),
-                   ("IndInv implies AfterOneRunFailAgrees and RewrittenAtMostOnce", "FmtCmd_apalache.cfg", "IndInit", "IndImplies", 0, True),
-                   ("defective design: IndInv is NOT inductive", "neg.cfg", "IndInit", "IndInv", 1, False)]
-    done = []
-    for what, cfg, init, inv, length, want_ok in obligations:
-        try:
-            p = subprocess.run(["apalache-mc", "check", "--config=" + cfg, "--next=NextUnbounded", "--init=" + init,
-                                "--inv=" + inv, "--length=%d" % length, "--out-dir=" + os.path.join(wd, "out"), "FmtCmd.tla"],
-                               cwd=wd, stdout=subprocess.PIPE, stderr=subprocess.STDOUT, timeout=600)
-        except subprocess.TimeoutExpired:
-            raise vlib.InfraError("apalache timeout: " + what)
-        out = p.stdout.decode(errors="replace")
-        ok = "The outcome is: NoError" in out
-        err = "The outcome is: Error" in out
-        if not ok and not err:
-            raise vlib.InfraError("apalache did not decide (%s): %s" % (what, out[-1500:]))
-        if ok != want_ok:
-            raise vlib.InfraError("apalache obligation failed in the model: " + what)
-        done.append(what)
-    ck.set("fmtcmd_apalache_obligations", done)
+    ck.set("fmtcmd_apalache_obligations", vlib.apalache_inductive(
+        "FmtCmd", "FmtCmd_apalache.cfg", "IndInit", "IndInv", "IndImplies", ("RunRewrites = TRUE", "RunRewrites = FALSE")))
 
 
 def run(prop):
